@@ -129,7 +129,43 @@ theorem C05_failed_save_leaves_open (s : St) (cfg : OpCfg) (r : Recording) (hf :
   · cases h
   · exact h
 
+/-- **The kill switch cannot cut a recording in two** (after F15).  Whatever the running code - the operation itself, an
+intercepted body, code run on its behalf - does with `enable_recording()` / `disable_recording()`, at every point of the
+run "a recording is in flight" implies "the switch is on": so no interception of a recording that is later saved went by
+uncaptured because the switch happened to be off. -/
+theorem C05_in_flight_implies_enabled (p : Prog) (s : St) (h : s.enabled = true ∨ s.active = none) :
+    (exec s p).1.enabled = true ∨ (exec s p).1.active = none :=
+  exec_enabledInv p s h
+
+/-- … and switching recording off while an operation is being recorded aborts that recording there and then: whatever
+the rest of the operation does (switch it on again included), the scope ends with `abort` and nothing is stored. -/
+theorem C05_switch_off_aborts (ao : AliasOracle) (cfg : OpCfg) (L : List Ev) (id : Nat) (s : St) (rest : Prog)
+    (excFlag : Option Bool) (tStart : Nat) (hs : Scope L id s) :
+    (finishRecording ao cfg (execOperationFunc s (.setEnabled false rest)).1 excFlag tStart).log
+      = L ++ [.create id, .abort id] ∧
+    (finishRecording ao cfg (execOperationFunc s (.setEnabled false rest)).1 excFlag tStart).store = s.store := by
+  have hs' : Scope L id (doSetEnabled s false) := scope_doSetEnabled false hs
+  have hd : (doSetEnabled s false).active = none := doSetEnabled_false_active s
+  have h := C05_discarded_never_saved ao cfg L id (doSetEnabled s false) rest excFlag tStart hs' hd
+  have he : execOperationFunc s (.setEnabled false rest) = execOperationFunc (doSetEnabled s false) rest := by
+    unfold execOperationFunc; rw [exec]
+  rw [he]
+  exact ⟨h.1, by rw [h.2]; simp⟩
+
 /-! Non-vacuity -/
+/-- an operation that reads, switches recording off, reads again, switches it on again and returns: created, aborted,
+nothing stored (before F15: saved, not flagged incomplete, without the second read) -/
+example :
+    let rd (a : String) (k : Out → Prog) : Prog :=
+      .callIn { name := "read", keys := fun _ => some (.input "read" true [.atom a] [], []), prepare := none,
+                restore := fun _ v => .ret v, runOriginal := false, substitute := none } ⟨[.atom a], []⟩
+        (.done (.out (.ret (.atom a)))) k
+    let p : Prog := rd "1" fun _ => .setEnabled false (rd "2" fun _ => .setEnabled true (.done (.out (.ret (.atom "3")))))
+    let r := runOperation ⟨fun a => a == opAlias, by simp⟩ { cls := "Op" } { enabled := true, clock := [0, 1] } p
+    r.1.log = [.create 0, .abort 0] ∧ r.1.store = [] ∧ r.1.active = none ∧ r.1.enabled = true ∧
+      r.2 = .out (.ret (.atom "3")) := by
+  decide
+
 example : ∀ d, ({ cls := "Op" } : OpCfg).saveFailsOn d = false := fun _ => rfl
 example : Scope [] 0 ({ active := some { id := 0, data := [], params := {} }, log := [.create 0], enabled := true } : St) :=
   ⟨rfl, rfl, Or.inl ⟨_, rfl, rfl, rfl⟩⟩
